@@ -45,7 +45,7 @@ func backtrackCases(c *ctx, n int, nIn int, probes bool, inline bool) []*gcase {
 
 func c03(c *ctx) {
 	cases := backtrackCases(c, tierN(c, 240, 5000), 16, false, false)
-	cfgs := []config{{name: "memo", v: vPlain, memo: true}, {name: "nomemo", v: vPlain}, {name: "size1", v: vPlain, memo: true, size: 1}, {name: "size4", v: vPlain, size: 4}}
+	cfgs := []config{{name: "memo", v: vPlain, memo: true}, {name: "nomemo", v: vPlain}, {name: "size1", v: vPlain, memo: true, size: 1}, {name: "size4", v: vPlain, size: 4}, {name: "both", v: vBoth, memo: true}}
 	f := &family{c: c, tag: "c03", configs: cfgs, noexec: true}
 	f.judge = func(cs *gcase, e entry, it *ref.Interp, refOK bool, refEnd int, res map[string]*corpus.Res) {
 		covAccumulate(c, it)
@@ -88,7 +88,7 @@ func c03(c *ctx) {
 	}
 	f.run(cases)
 	requireCov(c, "ref_nonempty_tokens_discarded_lookahead", "ref_nonempty_tokens_discarded_seqfail", "ref_capture_discarded_lookahead", "ref_action_discarded_seqfail", "ref_action_discarded_lookahead", "ref_seq_failed_after_tokens", "ref_capture_completed_in_lookahead")
-	c.run.Rule = "cases: shared-prefix grammars (alternatives repeating a prefix of rule calls, captures and actions before the point of failure; repetitions whose last iteration fails after writing tokens; captures/actions/rule calls inside & and !) plus all-operator grammars; multi-byte alphabet; token buffer Size unset/1/4, memo on/off; every rule used as entry. " +
+	c.run.Rule = "cases: shared-prefix grammars (alternatives repeating a prefix of rule calls, captures and actions before the point of failure; repetitions whose last iteration fails after writing tokens; captures/actions/rule calls inside & and !) plus all-operator grammars; multi-byte alphabet; token buffer Size unset/1/4, memo on/off, plus -inline -switch; every rule used as entry. " +
 		"Oracle: the token list (rule, begin, end in runes) equals the reference interpreter's post-order record of the successful derivation, plus reference-free invariants (bounds, last token = entry rule over the consumed prefix, laminar post-order). " +
 		"distinct_nontrivial = distinct accepted (grammar, entry, input) during whose parse the reference discarded at least one non-empty token on backtracking or at the end of a lookahead."
 	c.run.Assume("well-formed grammars; tokens after a failed parse are unspecified and not observed")
@@ -96,7 +96,7 @@ func c03(c *ctx) {
 
 func c04(c *ctx) {
 	cases := backtrackCases(c, tierN(c, 240, 5000), 16, false, false)
-	cfgs := []config{{name: "plain", v: vPlain, memo: true}, {name: "inline", v: vInline, memo: true}, {name: "nomemo", v: vPlain}}
+	cfgs := []config{{name: "plain", v: vPlain, memo: true}, {name: "inline", v: vInline, memo: true}, {name: "nomemo", v: vPlain}, {name: "switch", v: vSwitch, memo: true}}
 	f := &family{c: c, tag: "c04", configs: cfgs}
 	f.judge = func(cs *gcase, e entry, it *ref.Interp, refOK bool, refEnd int, res map[string]*corpus.Res) {
 		covAccumulate(c, it)
@@ -137,7 +137,7 @@ func c04(c *ctx) {
 	}
 	f.run(cases)
 	requireCov(c, "accepted_with_actions", "ref_action_discarded_seqfail", "ref_action_discarded_lookahead", "ref_action_reached_in_lookahead", "ref_capture_discarded_seqfail")
-	c.run.Rule = "cases: as C03 (shared prefixes with captures and actions, repetitions, lookahead, nested captures, action ids out of order across rules, non-ASCII text); every action is a probe p.act(id, text, begin, end); Execute() is called once after each successful parse, under default options, -inline and with memoisation off. " +
+	c.run.Rule = "cases: as C03 (shared prefixes with captures and actions, repetitions, lookahead, nested captures, action ids out of order across rules, non-ASCII text); every action is a probe p.act(id, text, begin, end); Execute() is called once after each successful parse, under default options, -inline, -switch and with memoisation off. " +
 		"Oracle: the recorded trace equals the reference's: exactly the derivation's actions, once, left to right, with text/begin/end of the most recently completed capture preceding each in the derivation. " +
 		"distinct_nontrivial = distinct accepted (grammar, entry, input) with >=1 action on the derivation and >=1 action reached in a branch that was abandoned or inside a lookahead."
 	c.run.Assume("well-formed grammars; -inline parsers are entered through the first rule only")
